@@ -1,0 +1,221 @@
+//! Observation hooks for runtime verification.
+//!
+//! Compiled only with the cargo feature `verif` (off by default), the hooks record what a
+//! conversion did into a thread local log which an external monitor drains after each call.
+//! None of the hooks changes what the library computes, the only effect other than recording
+//! is the optional *fuse*: when a monitor armed a budget and a conversion exceeds it, the
+//! conversion is ended with a panic carrying the `FUSE` marker, so that a runaway
+//! merge loop or recursion ends deterministically instead of overflowing the stack.
+use std::{
+    cell::RefCell,
+    collections::hash_map::DefaultHasher,
+    fmt::Display,
+    hash::{Hash, Hasher},
+    sync::{
+        atomic::{AtomicU64, Ordering},
+        Mutex,
+    },
+};
+
+/// the marker at the start of the panic message of a blown fuse
+pub const FUSE: &str = "svgbob-verif-fuse";
+
+/// What was observed on this thread since the last `take`
+#[derive(Debug, Default, Clone)]
+pub struct Report {
+    /// number of `Merge::merge` attempts made by `second_pass_merge`
+    pub merge_attempts: u64,
+    /// number of `merge_recursive` invocations
+    pub merge_passes: u64,
+    /// number of `FragmentTree::enclose_recursive` invocations
+    pub enclose_passes: u64,
+    /// deepest nesting of the recursive merge/enclose functions
+    pub max_depth: u32,
+    /// number of property buffers converted to fragment buffers
+    pub prop_buffers: u64,
+    /// hash over the sequence of iteration orders of the property buffers
+    pub prop_order_hash: u64,
+    /// the largest property buffer iterated
+    pub prop_cells_max: u64,
+    /// recorded events, one line each
+    pub events: Vec<String>,
+}
+
+#[derive(Default)]
+struct State {
+    report: Report,
+    depth: u32,
+    step_budget: u64,
+    depth_budget: u32,
+    record_events: bool,
+}
+
+thread_local! {
+    static STATE: RefCell<State> = RefCell::new(State::default());
+}
+
+/// Start observing a conversion on this thread.
+/// A budget of 0 means no limit.
+pub fn arm(step_budget: u64, depth_budget: u32, record_events: bool) {
+    STATE.with(|s| {
+        let mut s = s.borrow_mut();
+        s.report = Report::default();
+        s.depth = 0;
+        s.step_budget = step_budget;
+        s.depth_budget = depth_budget;
+        s.record_events = record_events;
+    })
+}
+
+/// Stop observing and return what was seen, also resets the depth
+/// which is left dangling when a conversion was ended by a panic
+pub fn take() -> Report {
+    STATE.with(|s| {
+        let mut s = s.borrow_mut();
+        s.depth = 0;
+        s.step_budget = 0;
+        s.depth_budget = 0;
+        s.record_events = false;
+        std::mem::take(&mut s.report)
+    })
+}
+
+/// one attempt to merge two items
+pub fn step() {
+    let blown = STATE.with(|s| {
+        let mut s = s.borrow_mut();
+        s.report.merge_attempts += 1;
+        s.step_budget > 0 && s.report.merge_attempts > s.step_budget
+    });
+    if blown {
+        panic!("{}: step budget exceeded", FUSE);
+    }
+}
+
+/// Guard of one level of a recursive function
+pub struct Depth;
+
+/// entering a recursive function, `kind` is either "merge" or "enclose"
+pub fn enter(kind: &'static str) -> Depth {
+    let blown = STATE.with(|s| {
+        let mut s = s.borrow_mut();
+        s.depth += 1;
+        if s.depth > s.report.max_depth {
+            s.report.max_depth = s.depth;
+        }
+        if kind == "enclose" {
+            s.report.enclose_passes += 1;
+        } else {
+            s.report.merge_passes += 1;
+        }
+        s.depth_budget > 0 && s.depth > s.depth_budget
+    });
+    if blown {
+        // the guard is not constructed, undo the increment
+        STATE.with(|s| s.borrow_mut().depth -= 1);
+        panic!("{}: depth budget exceeded in {}", FUSE, kind);
+    }
+    Depth
+}
+
+impl Drop for Depth {
+    fn drop(&mut self) {
+        STATE.with(|s| {
+            let mut s = s.borrow_mut();
+            s.depth = s.depth.saturating_sub(1);
+        })
+    }
+}
+
+/// a group of fragments was promoted to a rect
+pub fn endorse<S: Display, R: Display>(
+    kind: &str,
+    sources: &[S],
+    result: &R,
+    radius: Option<f32>,
+    is_broken: bool,
+) {
+    STATE.with(|s| {
+        let mut s = s.borrow_mut();
+        if s.record_events {
+            let sources: Vec<String> =
+                sources.iter().map(|f| f.to_string()).collect();
+            let radius = match radius {
+                Some(r) => r.to_string(),
+                None => "-".to_string(),
+            };
+            s.report.events.push(format!(
+                "endorse|{}|{}|{}|{}|{}",
+                kind,
+                sources.join(";"),
+                result,
+                radius,
+                is_broken
+            ));
+        }
+    })
+}
+
+/// a free form event
+pub fn event(kind: &str, detail: impl Display) {
+    STATE.with(|s| {
+        let mut s = s.borrow_mut();
+        if s.record_events {
+            s.report.events.push(format!("{}|{}", kind, detail));
+        }
+    })
+}
+
+/// the order in which the cells of a property buffer are iterated
+pub fn prop_order<K: Hash>(keys: impl Iterator<Item = K>) {
+    let mut hasher = DefaultHasher::new();
+    let mut n = 0u64;
+    for key in keys {
+        key.hash(&mut hasher);
+        n += 1;
+    }
+    let order = hasher.finish();
+    STATE.with(|s| {
+        let mut s = s.borrow_mut();
+        s.report.prop_buffers += 1;
+        if n > s.report.prop_cells_max {
+            s.report.prop_cells_max = n;
+        }
+        let mut hasher = DefaultHasher::new();
+        s.report.prop_order_hash.hash(&mut hasher);
+        order.hash(&mut hasher);
+        s.report.prop_order_hash = hasher.finish();
+    })
+}
+
+static INIT_SEQ: AtomicU64 = AtomicU64::new(0);
+static INIT_LOG: Mutex<Vec<(u64, &'static str, String)>> = Mutex::new(Vec::new());
+
+/// The initializer of a lazy table is running on this thread.
+/// With the environment variable `SVGBOB_VERIF_DELAY` (microseconds) set, the initializer
+/// is delayed to widen the window in which other threads wait for, or race for, the table.
+pub fn init(table: &'static str) {
+    let seq = INIT_SEQ.fetch_add(1, Ordering::SeqCst);
+    let thread = std::thread::current();
+    let who = match thread.name() {
+        Some(name) => name.to_string(),
+        None => format!("{:?}", thread.id()),
+    };
+    if let Ok(mut log) = INIT_LOG.lock() {
+        log.push((seq, table, who));
+    }
+    if let Ok(delay) = std::env::var("SVGBOB_VERIF_DELAY") {
+        if let Ok(micros) = delay.parse::<u64>() {
+            std::thread::yield_now();
+            std::thread::sleep(std::time::Duration::from_micros(micros));
+        }
+    }
+}
+
+/// which thread initialized which table, in order
+pub fn init_log() -> Vec<(u64, &'static str, String)> {
+    match INIT_LOG.lock() {
+        Ok(log) => log.clone(),
+        Err(_) => vec![],
+    }
+}
